@@ -1038,7 +1038,7 @@ def r_retry(ctx) -> RuleResult:
                 ks = set()
                 for r_ in rs_:
                     k_ = edge_kind(cs_.target, r_, depth + 1)
-                    if k_ is None and isinstance(r_, (ast.SetComp, ast.ListComp, ast.GeneratorExp)):
+                    if k_ is None and isinstance(r_, (ast.SetComp, ast.ListComp, ast.GeneratorExp)) and any(edge_kind(f_, a_, depth + 1) is not None for a_ in x.args):
                         # a comprehension over a parameter: the element form decides
                         probe = ast.SetComp(r_.elt, [ast.comprehension(r_.generators[0].target, ast.Attribute(ast.Name("_g", ast.Load()), "edges", ast.Load()), [], 0)])
                         k_ = edge_kind(cs_.target, ast.fix_missing_locations(ast.copy_location(probe, r_)), depth + 1)
@@ -1082,6 +1082,12 @@ def r_retry(ctx) -> RuleResult:
                             raise AnalysisError(f"R-RETRY: cannot tell whether `{short(a.test, 60)}` compares the two bond sets without regard to orientation ({kl} vs {kr})")
                 if pol is not None:
                     guards[n] = "false" if pol else "true"
+        # any other loop that draws the candidate again: whether it ends for every molecule is not something this rule reads
+        for w_ in own_walk(fn):
+            if isinstance(w_, ast.While) and cfg.node_of(w_) not in guards and \
+                    any(isinstance(x_, ast.Name) and isinstance(x_.ctx, ast.Store) and x_.id in cand_vars for x_ in ast.walk(w_)):
+                raise AnalysisError(f"R-RETRY: `while {short(w_.test, 60)}` draws the candidate again under a test that is not the changed-bond-set test; "
+                                    "whether that loop ends for every molecule (identical atoms, one atom) is not decided")
         # enforce tests: `if <cond>` whose cond evaluates True for (edges>=2, density<1)
         enforce_nodes = {}
         for n, a in cfg.ast.items():
